@@ -16,7 +16,7 @@ type (
 
 func New(src Source) *Rand        { return real.New(src) }
 func NewSource(seed int64) Source { return real.NewSource(seed) }
-func Seed(seed int64)             {}
+func Seed(seed int64)             { real.Seed(seed) }
 
 func draw(n int64) int64 {
 	if n <= 1 {
